@@ -5,5 +5,6 @@ Extraction Language OCaml.
 Extraction "model.ml" Model.step Model.init Model.fixed Model.at_yield Model.reg_sizes Model.lookup_thr
   Model.clprog Model.uprog
   C12.Spec.no_write_after_completed_b C12.Spec.completed_once_b C12.Spec.delivery_lite_b C12.Spec.writes_of
-  C13.Spec.counters_balanced_b C13.Spec.one_start_b C13.Spec.all_started_cancelled_b C13.Spec.quiescent_ok_b C13.Spec.teardown_own_b
+  C12.Spec.writes_exclusive_b C12.Spec.events_serial_b C12.Spec.serial_b
+  C13.Spec.counters_balanced_b C13.Spec.one_start_b C13.Spec.all_started_cancelled_b C13.Spec.quiescent_ok_b C13.Spec.teardown_own_b C13.Spec.all_completed_b C13.Spec.ident_ok_b
   BinNat.N.succ BinInt.Z.succ.  (* the shared OCaml prelude expects the positive / N / Z datatypes *)
